@@ -2194,6 +2194,9 @@ class Measurement:
         measurand = self.measurand**exponent
         if exponent == 0:
             return Measurement(measurand, 0)
+        if exponent == 1:
+            # d(x)/dx = 1, also where x**0 is undefined (a Decimal zero)
+            return Measurement(measurand, self.uncertainty.magnitude)
 
         # d(x**n)/dx = n * x**(n - 1)
         uncertainty = abs(
